@@ -86,6 +86,13 @@ def run(prog: Program, rep: Report, tier: str) -> None:
     key_kinds(rep, prog)
     guarded_stores(rep, prog)
     content_equality(rep, prog)
+    # derived state (caches computed by a constructor) follows its sources -- sa/rules/derived.py
+    from ..rules.derived import check_derived_state, positive_control as _derived_control
+    rep.rule('C20-D4', 'derived state: an attribute the constructor computes from other attributes of the object is recomputed by every method that rebinds one of those attributes (kept alive by a synthetic positive example)')
+    if not _derived_control():
+        rep.error('C20-D4: the synthetic positive example is no longer matched by the rule')
+    rep.analysed['derived_attributes'] = check_derived_state(rep, 'C20-D4 derived-state', prog, [c for mod in ('fggs.domains', 'fggs.factors') for c in prog.module(mod).classes.values()])
+    rep.floor('C20-D4 derived attributes', rep.analysed['derived_attributes'], 1)
 
 
 def key_kinds(rep: Report, prog: Program) -> None:
@@ -369,10 +376,17 @@ def content_equality(rep: Report, prog: Program) -> None:
     p0 = init.positional_params()[1]
     idx = [n for n in own_nodes(init.node) if isinstance(n, ast.DictComp)]
     ok = False
+    # names for the stored list: self.values itself and a local bound in the same statement (`self.values = vals = list(values)`)
+    selfn0 = init.positional_params()[0]
+    stored = {f"{selfn0}.values"}
+    for a_ in own_nodes(init.node):
+        if isinstance(a_, ast.Assign) and any(norm(t) == f"{selfn0}.values" for t in a_.targets):
+            stored |= {t.id for t in a_.targets if isinstance(t, ast.Name)}
+    stored_once = {x for x in stored if '.' in x or sum(1 for y in own_nodes(init.node) if isinstance(y, ast.Name) and y.id == x and isinstance(y.ctx, ast.Store)) == 1}
     for d in idx:
         g = d.generators[0]
         uses_p0 = sum(1 for x in own_nodes(init.node, into_lambdas=True) if isinstance(x, ast.Name) and x.id == p0 and isinstance(x.ctx, ast.Load))
-        src_ok = norm(g.iter.args[0]) == f"{init.positional_params()[0]}.values" or (norm(g.iter.args[0]) == p0 and uses_p0 == 1) if isinstance(g.iter, ast.Call) and g.iter.args else False
+        src_ok = norm(g.iter.args[0]) in stored_once or (norm(g.iter.args[0]) == p0 and uses_p0 == 1) if isinstance(g.iter, ast.Call) and g.iter.args else False
         if isinstance(g.iter, ast.Call) and callee_last(g.iter) == 'enumerate' and src_ok and not g.ifs \
                 and isinstance(g.target, ast.Tuple) and norm(d.key) == norm(g.target.elts[1]) and norm(d.value) == norm(g.target.elts[0]):
             ok = True
@@ -380,7 +394,7 @@ def content_equality(rep: Report, prog: Program) -> None:
     sv = f"{init.positional_params()[0]}.values"
     for c in [x for x in own_nodes(init.node) if isinstance(x, ast.Call) and callee_last(x) == 'dict' and len(x.args) == 1 and isinstance(x.args[0], ast.Call) and callee_last(x.args[0]) == 'zip']:
         za = [norm(a) for a in c.args[0].args]
-        if za in ([sv, f"range(len({sv}))"], [sv, f"range(0, len({sv}))"], [sv, 'count()'], [sv, 'itertools.count()']):
+        if any(za in ([x, f"range(len({x}))"], [x, f"range(0, len({x}))"], [x, 'count()'], [x, 'itertools.count()']) for x in stored_once):
             ok = True
     rep.ob(rule, init.fq(), 'value index = {v: i for (i, v) in enumerate(<the stored list>)}: the same sequence as self.values, not a second pass over the argument', init.loc(), ok,
            '' if ok else 'the index is not built from the stored value list (an iterator argument is empty on its second pass: contains() and numberize() then disagree)')
